@@ -8,6 +8,8 @@ cd /verif
 for id in "$@"; do
   out=$(VERIF_REPO=$wt ./check $id --tier quick 2>&1); rc=$?
   echo "$s $id rc=$rc $(echo "$out" | grep -c '^VIOLATION') violations; $(echo "$out" | tail -1 | cut -c1-150)"
+  f=$(echo "$out" | grep '^VIOLATION' | head -1 | sed 's/.*replay=//')
+  [ -n "$f" ] && python3 -c "import json,sys;d=json.load(open('$f'));print('   first:',d.get('label'),d.get('failure','')[:${FAILCHARS:-400}])"
 done
 rm -f /verif/replays/*/viol-*.json
 git -C $wt checkout -q -- . ; git -C $wt clean -fdq; git -C $wt checkout -q --detach main
